@@ -47,6 +47,8 @@ fn gsome[T](x: T) -> Opt[T] { Some_(x) }
 fn gor[T](o: Opt[T], d: T) -> T { match o { Some_(x) => x, None_ => d } }
 fn gpair[T, U](a: T, b: U) -> (T, U) { (a, b) }
 fn gtwo[T, U](a: T, b: U) -> Two[U, T] { Two { l: b, r: a } }
+fn gnone[T]() -> Opt[T] { None_ }
+fn gvnew[T]() -> Vec[T] { vec_new() }
 fn fact(n: int32) -> int32 { if n <= 1 { 1 } else { n * fact(n - 1) } }
 fn is_ev(n: int32) -> bool { if n == 0 { true } else { is_od(n - 1) } }
 fn is_od(n: int32) -> bool { if n == 0 { false } else { is_ev(n - 1) } }
@@ -74,6 +76,8 @@ FEATURES = {
                   "(match qc.size { Some_(qz) => qz + qc.bx.v, None_ => 0 }) + (match qc.nested.v { Some_(qb) => if qb { 1 } else { 0 }, None_ => 2 })"),
     "gen_payload": ("let qs = Sq(Some_(k), 2);", "(match qs { Circle(qb) => qb.v, Sq(qo, qn) => gor(qo, 0) + qn, Both(qp) => qp.0.v })"),
     "gen_payload2": ("let qs = Both((Box { v: k }, None_));", "(match qs { Circle(qb) => qb.v, Sq(_, qn) => qn, Both(qp) => qp.0.v + (match qp.1 { Some_(_) => 1, None_ => 0 }) })"),
+    "gen_ret_only": ('let qo: Opt[int32] = gnone(); let qs: Opt[string] = gnone();', 'gor(qo, k) + string_len(gor(qs, "ab"))'),
+    "gen_ret_only_vec": ("let qv: Vec[int32] = gvnew(); let qw: Vec[bool] = gvnew(); let qv = vec_push(qv, k);", "vec_get(qv, 0) + vec_len(qw)"),
     "dyn_prim": ("let qd: dyn Tick = k;", "Tick::val(qd) + Tick::xval(qd)"),
     "dyn_struct": ("let qk = K { c: ref(k) }; let qd: dyn Tick = qk; let _ = Tick::tick(qd);", "Tick::addv(qd, 5) + Tick::xval(qd)"),
     "dyn_generic": ("let qb: Box[int32] = Box { v: k }; let qd: dyn Tick = qb;", "Tick::xval(qd) + Tick::val(qd)"),
